@@ -3286,7 +3286,16 @@ func ruleFormStateIsolated(c *eng.Ctx) {
 					}
 				}
 				if strings.Contains(strings.ToLower(n), "resolve") {
-					resolved = true
+					// the resolver must be handed the entry itself (the stream the entry is read from was resolved too)
+					for _, a := range eng.ArgsWithRecv(call) {
+						for u := range eng.Slice(a, func(*ssa.Call) bool { return true }) {
+							if g, ok := u.(*ssa.Call); ok && strings.HasSuffix(eng.CalleeName(g), "core.Dict.Get") && len(g.Call.Args) == 2 {
+								if s, ok := eng.ConstString(g.Call.Args[1]); ok && s == "Matrix" {
+									resolved = true
+								}
+							}
+						}
+					}
 				}
 			}
 			if fromMatrix {
